@@ -69,7 +69,7 @@ func report(eng *Engine, prop, tier string, seed int, start time.Time, runs []*R
 	var vanished []string
 	if *flagFn == "" {
 		for _, n := range expected {
-			if strings.Contains(n, "/safe:") {
+			if strings.Contains(n, "/safe:") || strings.Contains(n, "/frame:") {
 				continue // a panic-freedom obligation that no longer exists has nothing left to check
 			}
 			if !have[n] {
